@@ -129,7 +129,12 @@ fn classes(name: &str) -> Value {
     let l = lex_format(name);
     let al = alphabet();
     let sel = |p: &dyn Fn(char) -> bool| -> Vec<String> { al.iter().filter(|c| p(**c)).map(|c| c.to_string()).collect() };
+    // the two parsers must read the same name alphabet: every Unicode scalar value on which the enum and the lexical predicate differ
+    let diff: Vec<String> = (0u32..=0x10ffff).filter_map(char::from_u32).filter(|c| (e.is_valid_atom_name)(*c) != (l.atom.is_identifier)(*c))
+        .map(|c| format!("U+{:04X}", c as u32)).collect();
     json!({
+        "name_class_diff_count": diff.len(),
+        "name_class_diff": diff.into_iter().take(40).collect::<Vec<_>>(),
         "atom_name": sel(&|c| (e.is_valid_atom_name)(c)),
         "identifier": sel(&|c| (l.atom.is_identifier)(c)),
         "lex_space": sel(&|c| (l.space.is_for_parse)(c)),
